@@ -81,6 +81,15 @@ class LoopSpec:
     havoc(eng, env) assigns fresh values to everything the body may modify, variant(eng, env) -> z3 Int (while loops)"""
     def __init__(self, inv, havoc, variant=None): self.inv, self.havoc, self.variant = inv, havoc, variant
 
+class CompSpec:
+    """sidecar contract of a comprehension over a symbolic-length sequence: summary(eng, it) -> value (or raises PyRaise),
+    element(eng, it, g, outcome) issues the obligations that justify the summary for the generic index g"""
+    def __init__(self, summary, element): self.summary, self.element = summary, element
+
+class SymSeqResult:
+    """what a comprehension over a symbolic sequence produced: elementwise description, consumed by bytes() / ''.join()"""
+    def __init__(self, kind, value): self.kind, self.value = kind, value
+
 class ExcName:
     """stands for a builtin exception class object"""
     def __init__(self, name): self.name = name
@@ -236,6 +245,7 @@ class Engine:
         self.func_stack = []
         self.branch_timeout_ms = 3000
         self.unknown_branches = 0
+        self.comp_specs = {}      # (qualname, ordinal) -> CompSpec
         self.loop_specs = {}      # (qualname, ordinal) -> LoopSpec
         self.assumptions = set()  # abstractions actually used on some path
 
@@ -700,6 +710,8 @@ class Engine:
             return z3.Contains(zstr(container), zstr(item))
         if isinstance(container, (tuple, list, set)) and is_symstr(item):
             return z3.Or([item == z3.StringVal(c) for c in container if isinstance(c, str)]) if container else False
+        if isinstance(container, dict) and is_sym(item) and len(container) > 16:
+            return dict_fns(container, item)[1](item)
         if isinstance(container, dict) and is_symstr(item):
             return z3.Or([item == z3.StringVal(c) for c in container if isinstance(c, str)]) if container else False
         if isinstance(container, (tuple, list, dict, str, set)) and not is_sym(item):
@@ -756,6 +768,16 @@ class Engine:
         if isinstance(v, (str, bytes)) and attr == "join": return Builtin("join", b_join(v))
         if isinstance(v, str) or isinstance(v, (bytes, bytearray)):
             return Builtin("str." + attr, lambda eng, *a, _m=getattr(v, attr): _m(*a))
+        if is_symbytes(v) and attr == "ljust":
+            def bljust(eng, n, fill=b" ", _v=v):
+                if not isinstance(n, int) or n > 32 or not isinstance(fill, (bytes, bytearray)) or len(fill) != 1: raise Unsupported("bytes.ljust with symbolic width")
+                L = slen(_v); r = _v
+                if isinstance(L, int): return _v if L >= n else z3.Concat(_v, to_z3bytes(bytes(fill) * (n - L)))
+                for k in range(n - 1, -1, -1):
+                    padk = to_z3bytes(bytes(fill) * (n - k))
+                    r = z3.If(L == k, z3.Concat(_v, padk) if k else padk, r)
+                return r
+            return Builtin("bytes.ljust", bljust)
         if isinstance(v, SymList):
             if attr == "append":
                 def lapp(eng, x, _v=v):
@@ -801,8 +823,11 @@ class Engine:
         if isinstance(v, ClassV) and v.lookup("construct") is not None:
             # Deferred[T] / SizedDeferred[T]
             return Builtin(f"{v.name}[]", lambda eng, *a, _c=v, _t=idx: eng.make_deferred(_c, _t, *a))
+        if isinstance(v, dict) and is_sym(idx):
+            val, has = dict_fns(v, idx)
+            if self.branch(z3.Not(has(idx))): raise PyRaise(Exc("KeyError"))
+            return val(idx)
         if isinstance(v, dict):
-            if is_sym(idx): raise Unsupported("symbolic dict key")
             if idx not in v:
                 hook = getattr(v, "missing", None)
                 raise PyRaise(Exc("KeyError"))
@@ -816,6 +841,14 @@ class Engine:
             r = to_z3bytes(v[-1])
             for k in range(len(v) - 2, -1, -1):
                 r = z3.If(z3.Or(idx == k, idx == k - len(v)), to_z3bytes(v[k]), r)
+            return r
+        if isinstance(v, (list, tuple)) and is_sym(idx) and len(v) > 16 and all(isinstance(x, str) for x in v):
+            # a long constant table of strings indexed by a symbolic int: uninterpreted function + facts computed from the table
+            if self.branch(z3.Or(idx < -len(v), idx >= len(v))): raise PyRaise(Exc("IndexError"))
+            k = id(v)
+            if k not in LISTFN: LISTFN[k] = (z3.Function("listval_%d" % len(LISTFN), z3.IntSort(), z3.StringSort()), v)
+            r = LISTFN[k][0](idx)
+            self.assume(z3.And(z3.Length(r) >= min(len(x) for x in v), z3.Length(r) <= max(len(x) for x in v)))
             return r
         if isinstance(v, (list, tuple, str, bytes)):
             if is_sym(idx): raise Unsupported("symbolic index into concrete seq")
@@ -845,9 +878,48 @@ class Engine:
         if isinstance(v, SymList): return SymSlice(seq, a, b)
         return z3.SubString(seq, a, z3.If(b > a, b - a, 0)) if is_symstr(seq) else z3.Extract(seq, a, z3.If(b > a, b - a, 0))
 
+    def e_DictComp(self, n, env, mod):
+        out = {}
+        def rec(i, e):
+            if i == len(n.generators):
+                out[self.eval(n.key, e, mod)] = self.eval(n.value, e, mod); return
+            g = n.generators[i]
+            for item in self.iterate(self.eval(g.iter, e, mod)):
+                e2 = Env(e); self.assign_target(g.target, item, e2, mod)
+                if all(self.truth(self.eval(c, e2, mod)) for c in g.ifs): rec(i + 1, e2)
+        rec(0, env)
+        return out
     def e_GeneratorExp(self, n, env, mod): return self.comprehension(n, env, mod)
     def e_ListComp(self, n, env, mod): return self.comprehension(n, env, mod)
+    def comp_key(self, n):
+        f = self.func_stack[-1] if self.func_stack else None
+        if f is None: return None
+        cache = getattr(f, "_comps", None)
+        if cache is None:
+            cache = [c for c in ast.walk(f.node) if isinstance(c, (ast.GeneratorExp, ast.ListComp))]
+            cache.sort(key=lambda c: (c.lineno, c.col_offset))
+            f._comps = cache
+        for i, c in enumerate(cache):
+            if c is n: return (f.qualname, i)
+        return None
+
     def comprehension(self, n, env, mod):
+        if len(n.generators) == 1 and not n.generators[0].ifs:
+            g = n.generators[0]
+            it = self.eval(g.iter, env, mod)
+            if isinstance(it, (SymList, SymRange)) or is_symstr(it) or is_symbytes(it):
+                # comprehension over a symbolic-length sequence: sidecar contract = summary + generic-element obligation
+                key = self.comp_key(n)
+                spec = self.comp_specs.get(key)
+                if spec is None: raise Unsupported("comprehension over a symbolic-length iterable without a contract: %s:%d" % (mod["name"], n.lineno))
+                if self.branch(self.fresh_bool("generic_element")):
+                    gi = self.fresh_int("g"); self.assume(gi >= 0); self.assume(gi < self.iter_len(it))
+                    e2 = Env(env); self.assign_target(g.target, self.iter_item(it, gi), e2, mod)
+                    try: outcome = ("value", self.eval(n.elt, e2, mod))
+                    except PyRaise as pr: outcome = ("raise", pr.exc)
+                    spec.element(self, it, gi, outcome)
+                    raise PathEnd()
+                return spec.summary(self, it)
         out = []
         def rec(i, e):
             if i == len(n.generators):
@@ -1223,7 +1295,8 @@ def b_struct_pack(eng, fmt, *vals):
     if not any(is_sym(v) for v in vals):
         try: return struct.pack(fmt, *vals)
         except struct.error: raise PyRaise(Exc("struct.error"))
-    assert fmt[0] == "<"
+    if fmt[0] not in "<>": raise Unsupported("struct byte order " + fmt[0])
+    big = fmt[0] == ">"
     codes = _re.findall(r"(\d*)([A-Za-z])", fmt[1:])
     if "".join(n + c for n, c in codes) != fmt[1:] or not all(c in "HBIs" and (not n or c == "s") for n, c in codes): raise Unsupported("struct fmt " + fmt)
     if len(codes) != len(vals): raise PyRaise(Exc("struct.error"))
@@ -1245,13 +1318,14 @@ def b_struct_pack(eng, fmt, *vals):
         if not is_symint(v) and not isinstance(v, z3.IntNumRef): raise PyRaise(Exc("struct.error"))
         if code == "H":
             if eng.branch(z3.Or(v < 0, v > 65535)): raise PyRaise(Exc("struct.error"))
-            out += [z3.Unit(v % 256), z3.Unit(v / 256)]
+            out += [z3.Unit(v / 256), z3.Unit(v % 256)] if big else [z3.Unit(v % 256), z3.Unit(v / 256)]
         elif code == "B":
             if eng.branch(z3.Or(v < 0, v > 255)): raise PyRaise(Exc("struct.error"))
             out += [z3.Unit(v + 0)]
         elif code == "I":
             if eng.branch(z3.Or(v < 0, v > 2 ** 32 - 1)): raise PyRaise(Exc("struct.error"))
-            out += [z3.Unit(v % 256), z3.Unit(v / 256 % 256), z3.Unit(v / 65536 % 256), z3.Unit(v / 16777216)]
+            bs = [z3.Unit(v % 256), z3.Unit(v / 256 % 256), z3.Unit(v / 65536 % 256), z3.Unit(v / 16777216)]
+            out += bs[::-1] if big else bs
     return out[0] if len(out) == 1 else z3.Concat(*out)
 
 def b_report(kind):
@@ -1307,6 +1381,7 @@ class BitOf:
 
 def b_join(sep):
     def fn(eng, items):
+        if (is_symstr(items) and sep == "") or (is_symbytes(items) and sep == b""): return items     # summary of a comprehension over a symbolic sequence
         items = list(items)
         if any(isinstance(i, SymDigit) for i in items):
             assert sep == ""
@@ -1408,6 +1483,18 @@ def substr1(s, j):
                 break
             pos += l
     return z3.SubString(s, j, 1)
+
+LISTFN = {}
+DICTFN = {}
+
+def dict_fns(d, key):
+    """a large constant dict indexed by a symbolic key: (value function, membership predicate), both uninterpreted;
+    the dict's content is the business of closed obligations"""
+    k = id(d)
+    if k not in DICTFN:
+        ksort = z3.StringSort() if is_symstr(key) else z3.IntSort()
+        DICTFN[k] = (z3.Function("dictval_%d" % len(DICTFN), ksort, z3.IntSort()), z3.Function("dicthas_%d" % len(DICTFN), ksort, z3.BoolSort()), d)
+    return DICTFN[k][0], DICTFN[k][1]
 
 FINDFN = {}
 
